@@ -219,6 +219,30 @@ def main(out_v, out_json):
             drops += 1
     g.put("sockets_with_drop_shutdown", drops, "syntax")
 
+    # accept loops (C20): the loop body only spawns the handshake task (detached) and never awaits anything itself
+    for nm, path in (("tcp", "src/transport/tcp.rs"), ("ipc", "src/transport/ipc.rs")):
+        t = rd(path)
+        m2 = re.search(r"let task_handle = async_rt::task::spawn\(async move \{(.*?)\n    \}\);", t, re.S)
+        body = m2.group(1) if m2 else None
+        lp = None
+        if body:
+            i = body.find("loop {")
+            if i >= 0:
+                depth, j = 0, i + 5
+                while j < len(body):
+                    if body[j] == "{":
+                        depth += 1
+                    elif body[j] == "}":
+                        depth -= 1
+                        if depth == 0:
+                            break
+                    j += 1
+                lp = body[i:j + 1]
+        g.put(nm + "_accept_loop_awaits", None if lp is None else len(re.findall(r"\.await", lp)), "syntax")
+        g.put(nm + "_accept_spawns_detached", None if lp is None else
+              (1 if re.search(r"\n\s*async_rt::task::spawn\(cback\(maybe_accepted\)\);", lp) else 0), "syntax")
+        g.put(nm + "_accept_select_arms", None if lp is None else len(re.findall(r"=>\s*\{", lp)), "syntax")
+
     # pinned asynchronous-codec
     lock = rd("Cargo.lock")
     mv = re.search(r'name = "asynchronous-codec"\nversion = "([^"]+)"', lock)
